@@ -52,6 +52,11 @@ type sv struct {
 	op   string
 	args []sv
 	n    int64 // length of a list
+	// a function value: the function and, for a closure, the values of its bindings
+	fn *ssa.Function
+	fv []sv
+	// dynamic type of a value that was boxed into an interface
+	typ types.Type
 }
 
 func (v sv) String() string {
@@ -120,6 +125,15 @@ type ssaEval struct {
 	// evaluation towards a target block); the choice is recorded in assumed
 	guide   func(ifi *ssa.If) (succ int, ok bool)
 	assumed []string
+	// inlineLib: functions outside the module that are evaluated in place too (generic helpers of
+	// package slices, …); maxDepth: inlining depth (default 4)
+	inlineLib func(fn *ssa.Function) bool
+	maxDepth  int
+	// makeLists (concrete mode, ext_a.go): make([]T, constant) yields a list of zero values instead
+	// of a slice term, []byte(s) a writable copy, slice literals can be appended to and converted,
+	// copy is performed, function values that are known are called, slice elements that are
+	// structs are assembled from their fields
+	makeLists bool
 
 	mem     map[string]sv
 	lists   map[string][]sv
@@ -187,7 +201,7 @@ func (e *ssaEval) val(fr *frame, v ssa.Value) sv {
 		return sv{k: svAddr, s: "global:" + x.String()}
 	case *ssa.Function:
 		e.noteFunc(x)
-		return symV("func:" + x.String())
+		return sv{k: svSym, s: "func:" + x.String(), fn: x}
 	}
 	return sv{}
 }
@@ -436,10 +450,10 @@ func (e *ssaEval) instr(fr *frame, ins ssa.Instruction) {
 		}
 	case *ssa.Convert:
 		a := e.val(fr, x.X)
-		if a.k == svList {
+		if a.k == svList || (e.concrete() && a.op == "slice" && len(a.args) == 3 && a.args[0].k == svAddr) {
 			// []byte → string of known bytes
 			if bt, ok := x.Type().Underlying().(*types.Basic); ok && bt.Info()&types.IsString != 0 {
-				if el, ok := e.elems(a); ok {
+				if el, ok := e.elems(a); ok && (a.k == svList || len(el) > 0) {
 					buf := make([]byte, 0, len(el))
 					for _, v := range el {
 						if v.k != svInt {
@@ -459,6 +473,21 @@ func (e *ssaEval) instr(fr *frame, ins ssa.Instruction) {
 			if bt, ok := x.Type().Underlying().(*types.Basic); ok && bt.Info()&types.IsString != 0 {
 				set(x, sv{k: svString})
 				return
+			}
+		}
+		if a.k == svString && e.concrete() {
+			// string → []byte: a fresh, writable copy of the bytes
+			if sl, ok := x.Type().Underlying().(*types.Slice); ok {
+				if bt, ok := sl.Elem().Underlying().(*types.Basic); ok && bt.Kind() == types.Uint8 {
+					if _, fromString := x.X.Type().Underlying().(*types.Basic); fromString {
+						el := make([]sv, len(a.s))
+						for i := range el {
+							el[i] = intV(int64(a.s[i]))
+						}
+						set(x, e.newList(el))
+						return
+					}
+				}
 			}
 		}
 		if a.k == svSym && intSize(x.Type()) > 0 && intSize(x.X.Type()) > intSize(x.Type()) {
@@ -484,7 +513,11 @@ func (e *ssaEval) instr(fr *frame, ins ssa.Instruction) {
 	case *ssa.ChangeType:
 		set(x, e.val(fr, x.X))
 	case *ssa.MakeInterface:
-		set(x, e.val(fr, x.X))
+		v := e.val(fr, x.X)
+		if v.typ == nil && v.known() {
+			v.typ = x.X.Type()
+		}
+		set(x, v)
 	case *ssa.ChangeInterface:
 		set(x, e.val(fr, x.X))
 	case *ssa.Alloc:
@@ -541,6 +574,11 @@ func (e *ssaEval) instr(fr *frame, ins ssa.Instruction) {
 			set(x, intV(int64(a.s[i.i])))
 		} else if (a.k == svSym || a.k == svAddr) && i.known() {
 			set(x, symV(a.s+"["+i.String()+"]"))
+		} else if a.k == svString && i.k == svSym && e.call != nil {
+			// a constant string used as a table, indexed by a value that is not fixed
+			if r, ok := e.call(nil, []sv{symV("strindex"), a, i}); ok && r.k != svTuple {
+				set(x, r)
+			}
 		}
 	case *ssa.Lookup:
 		a, i := e.val(fr, x.X), e.val(fr, x.Index)
@@ -581,6 +619,54 @@ func (e *ssaEval) instr(fr *frame, ins ssa.Instruction) {
 				set(x, a)
 			}
 			return
+		}
+		if al, isAlloc := x.X.(*ssa.Alloc); isAlloc && e.concrete() && a.k == svAddr && al.Comment == "makeslice" {
+			// make([]T, constant): go/ssa allocates the array and slices it; the evaluator makes a
+			// list of zero values
+			if at, ok := al.Type().Underlying().(*types.Pointer).Elem().Underlying().(*types.Array); ok && at.Len() <= 1<<16 {
+				if z, ok := aZeroSV(at.Elem()); ok {
+					hi := at.Len()
+					if x.High != nil {
+						if h := e.val(fr, x.High); h.k == svInt {
+							hi = h.i
+						}
+					}
+					if x.Low == nil && hi >= 0 && hi <= at.Len() {
+						el := make([]sv, at.Len())
+						for i := range el {
+							el[i] = z
+						}
+						l := e.newList(el)
+						l.n = hi
+						set(x, l)
+						return
+					}
+				}
+			}
+		}
+		if al, isAlloc := x.X.(*ssa.Alloc); isAlloc && e.concrete() && a.k == svAddr && (al.Comment == "slicelit" || al.Comment == "varargs") && x.Low == nil && x.High == nil {
+			// a slice literal: the elements have just been stored into the array
+			if at, ok := al.Type().Underlying().(*types.Pointer).Elem().Underlying().(*types.Array); ok && at.Len() <= 1<<12 {
+				el := make([]sv, 0, at.Len())
+				for i := int64(0); i < at.Len(); i++ {
+					key := fmt.Sprintf("%s[%d]", a.s, i)
+					v, ok := e.mem[key]
+					if !ok {
+						v, ok = e.structAt(key)
+					}
+					if !ok {
+						v, ok = aZeroSV(at.Elem())
+					}
+					if !ok {
+						break
+					}
+					el = append(el, v)
+				}
+				if int64(len(el)) == at.Len() {
+					set(x, e.newList(el))
+					return
+				}
+			}
 		}
 		if a.k == svSym || a.k == svAddr {
 			lo, hi := sv{k: svSym, s: "_"}, sv{k: svSym, s: "_"}
@@ -703,7 +789,18 @@ func (e *ssaEval) instr(fr *frame, ins ssa.Instruction) {
 		}
 		e.nalloc++
 		set(x, symV(fmt.Sprintf("fresh%d", e.nalloc)))
-	case *ssa.MakeMap, *ssa.MakeClosure, *ssa.MakeChan:
+	case *ssa.MakeClosure:
+		e.nalloc++
+		cl := symV(fmt.Sprintf("fresh%d", e.nalloc))
+		if f, ok := x.Fn.(*ssa.Function); ok {
+			cl.fn = f
+			for _, b := range x.Bindings {
+				cl.fv = append(cl.fv, e.val(fr, b))
+			}
+		}
+		set(x, cl)
+		e.noteClosure(fr, ins, cl.s)
+	case *ssa.MakeMap, *ssa.MakeChan:
 		e.nalloc++
 		set(x.(ssa.Value), symV(fmt.Sprintf("fresh%d", e.nalloc)))
 		e.noteClosure(fr, ins, fmt.Sprintf("fresh%d", e.nalloc))
@@ -908,6 +1005,22 @@ func (e *ssaEval) doCall(fr *frame, x *ssa.Call) sv {
 				}
 			}
 		case "append":
+			if e.concrete() && len(args) == 2 && args[0].op == "slice" && len(args[0].args) == 3 && args[0].args[1].s == "_" && args[0].args[2].s == "_" {
+				// a whole-array slice (a slice literal) has no spare capacity: append copies it
+				if el, ok := e.elems(args[0]); ok && len(el) > 0 {
+					args[0] = e.newList(el)
+				}
+			}
+			if e.concrete() && len(args) == 2 && args[1].k == svString && (args[0].k == svList || args[0].k == svNil) {
+				// append(b, s...) with the bytes of a known string
+				el := make([]sv, len(args[1].s))
+				for i := range el {
+					el[i] = intV(int64(args[1].s[i]))
+				}
+				r := e.listAppend(args[0], el)
+				e.effects = append(e.effects, ssaEffect{ins: x, what: "append", args: []sv{args[0], args[1], r}})
+				return r
+			}
 			if len(args) == 2 && (args[0].k == svList || args[0].k == svNil) {
 				if el, ok := e.elems(args[1]); ok {
 					r := e.listAppend(args[0], el)
@@ -918,8 +1031,31 @@ func (e *ssaEval) doCall(fr *frame, x *ssa.Call) sv {
 			if len(args) == 1 && args[0].known() {
 				return term(b.Name(), args[0])
 			}
+		case "copy":
+			if e.concrete() && len(args) == 2 && args[0].k == svList {
+				var src []sv
+				ok := false
+				if args[1].k == svString {
+					for i := 0; i < len(args[1].s); i++ {
+						src = append(src, intV(int64(args[1].s[i])))
+					}
+					ok = true
+				} else if el, isL := e.elems(args[1]); isL {
+					src, ok = append([]sv{}, el...), true
+				}
+				if dst, isL := e.elems(args[0]); ok && isL {
+					n := copy(dst, src)
+					return intV(int64(n))
+				}
+			}
+			if e.concrete() && len(args) == 2 && args[0].k == svNil {
+				return intV(0)
+			}
 		case "min", "max":
 			if r, ok := e.foldMinMax(b.Name(), args); ok {
+				return r
+			}
+			if r, ok := foldMinMaxOracle(e, b.Name(), args); ok {
 				return r
 			}
 			return term(b.Name(), args...)
@@ -940,12 +1076,23 @@ func (e *ssaEval) doCall(fr *frame, x *ssa.Call) sv {
 	if r, ok := e.stdFunc(callName(x), args); ok {
 		return r
 	}
-	if fn, fvs := e.calleeOf(fr, x); fn != nil && len(fn.Blocks) > 0 && (e.c.inModule(fn) || pureStdHelper(fn)) && e.depth < 4 && (e.noInline == nil || !e.noInline(fn)) {
+	fn, fvals := e.calleeOf(fr, x)
+	if fn == nil && !x.Call.IsInvoke() && e.concrete() {
+		// a call of a function value that is known (a parameter bound to a function, a closure)
+		if v := e.val(fr, x.Call.Value); v.fn != nil {
+			fn, fvals = v.fn, v.fv
+		}
+	}
+	maxDepth := 4
+	if e.maxDepth > 0 {
+		maxDepth = e.maxDepth
+	}
+	if fn != nil && len(fn.Blocks) > 0 && (e.c.inModule(fn) || pureStdHelper(fn) || e.inlineLib != nil && e.inlineLib(fn)) && e.depth < maxDepth && (e.noInline == nil || !e.noInline(fn)) {
 		// closures: bind the free variables to the values of the bindings
 		sub := &frame{vals: map[ssa.Value]sv{}}
 		for i, fv := range fn.FreeVars {
-			if i < len(fvs) {
-				sub.vals[fv] = fvs[i]
+			if i < len(fvals) {
+				sub.vals[fv] = fvals[i]
 			}
 		}
 		if mc, ok := x.Call.Value.(*ssa.MakeClosure); ok {
@@ -1077,6 +1224,10 @@ func (e *ssaEval) elems(v sv) ([]sv, bool) {
 		var out []sv
 		for i := 0; ; i++ {
 			x, ok := e.mem[fmt.Sprintf("%s[%d]", v.args[0].s, i)]
+			if !ok && e.concrete() {
+				// an element that is a struct whose fields were stored one by one
+				x, ok = e.structAt(fmt.Sprintf("%s[%d]", v.args[0].s, i))
+			}
 			if !ok {
 				break
 			}
@@ -1159,3 +1310,28 @@ func (e *ssaEval) stringFunc(name string, args []sv) (sv, bool) {
 	}
 	return sv{}, false
 }
+
+// structAt assembles the struct value whose fields are modelled cells addr.f (for rendering).
+func (e *ssaEval) structAt(addr string) (sv, bool) {
+	var keys []string
+	for k := range e.mem {
+		if strings.HasPrefix(k, addr+".") && !strings.Contains(k[len(addr)+1:], ".") {
+			keys = append(keys, k)
+		}
+	}
+	if len(keys) == 0 {
+		return sv{}, false
+	}
+	sort.Strings(keys)
+	var p []string
+	for _, k := range keys {
+		p = append(p, k[len(addr)+1:]+":"+e.render(e.mem[k]))
+	}
+	return sv{k: svStruct, s: "{" + strings.Join(p, ",") + "}"}, true
+}
+
+// aConcreteAll switches every evaluator into concrete mode (set by a rule of ext_a.go around the
+// use of another rule's machine).
+var aConcreteAll bool
+
+func (e *ssaEval) concrete() bool { return e.makeLists || aConcreteAll }
